@@ -58,7 +58,10 @@ impl RestorerJob {
         server_ref: &ServerRef,
     ) -> crate::Result<Vec<TaskSubmit>> {
         log::debug!("Restoring job {job_id}");
-        let job = Job::new(job_id, self.job_desc, self.is_open);
+        let mut job = Job::new(job_id, self.job_desc, self.is_open);
+        if !self.cancel_reason.is_empty() {
+            job.cancel_reason = Some(self.cancel_reason);
+        }
         state.add_job(job);
         let mut result: Vec<TaskSubmit> = Vec::new();
         for submit in self.submit_descs {
